@@ -899,7 +899,7 @@ func releaseDeferred(st lockState) lockState {
 func (bc *bodyCtx) atExit(pos token.Pos, ret *ast.ReturnStmt, st *lockState) {
 	la := bc.la
 	for _, h := range st.may {
-		if h.Deferred || h.Pos == token.NoPos {
+		if h.Deferred || h.Pos == token.NoPos || strings.HasPrefix(h.Expr, "releaser:") {
 			continue
 		}
 		if entryHeld(bc, h) {
@@ -948,8 +948,41 @@ func returnsReleaser(fn *FuncNode, ret *ast.ReturnStmt, h held) bool {
 				return true
 			}
 		}
+		// "return insert, finish" where finish := func(..) { ...; x.mu.Unlock() }
+		if lit := returnedClosure(fn, e); lit != nil {
+			found := false
+			ast.Inspect(lit.Body, func(n ast.Node) bool {
+				if call, ok := n.(*ast.CallExpr); ok {
+					if sel, ok := ast.Unparen(call.Fun).(*ast.SelectorExpr); ok && sel.Sel.Name == want && types.ExprString(ast.Unparen(sel.X)) == h.Expr {
+						found = true
+					}
+				}
+				return true
+			})
+			if found {
+				return true
+			}
+		}
 	}
 	return false
+}
+
+// returnedClosure resolves a returned expression to the function literal it denotes:
+// the literal itself or a local variable defined once from a literal.
+func returnedClosure(fn *FuncNode, e ast.Expr) *ast.FuncLit {
+	switch x := ast.Unparen(e).(type) {
+	case *ast.FuncLit:
+		return x
+	case *ast.Ident:
+		if o := objOf(fn, x); o != nil {
+			if rhs, _, ok := varDefinedBy(fn, o); ok {
+				if l, ok := ast.Unparen(rhs).(*ast.FuncLit); ok {
+					return l
+				}
+			}
+		}
+	}
+	return nil
 }
 
 // node applies the transfer function of one graph node.
@@ -987,6 +1020,34 @@ func (bc *bodyCtx) node(n ast.Node, st *lockState) {
 	case *ast.ReturnStmt:
 		for _, r := range x.Results {
 			bc.expr(r, st, false)
+		}
+		// acquire-and-return-releaser through closures (index populate): the returned
+		// closures run while the lock taken here is still held
+		handsBack := false
+		for _, h := range st.may {
+			if !h.Deferred && h.Pos != token.NoPos && returnsReleaser(bc.fn, x, h) {
+				handsBack = true
+			}
+		}
+		if handsBack {
+			for _, r := range x.Results {
+				if lit := returnedClosure(bc.fn, r); lit != nil {
+					entry := st.clone()
+					for k, v := range entry.must {
+						v.Deferred = true
+						entry.must[k] = v
+					}
+					for k, v := range entry.may {
+						v.Deferred = true
+						entry.may[k] = v
+					}
+					if ln := bc.la.P.LitNode(lit); ln != nil {
+						bc.la.litSeen[ln] = true
+						bc.la.litEntry[ln] = entry
+						bc.la.analyzeBody(ln, entry, false)
+					}
+				}
+			}
 		}
 		return
 	case *ast.ExprStmt:
